@@ -17,8 +17,7 @@ Wraps(x) ==
               Node("asg", "=", <<x, B>>), Node("casg", "+=", <<x, B>>), Node("casg", "-=", <<x, B>>)}
         ELSE {})
   \cup {Node("asg", "=", <<B, x>>), Node("casg", "+=", <<B, x>>), Node("casg", "-=", <<B, x>>)}
-  \cup (IF x.k \notin {"num", "flt"}
-        THEN {Node("mem", "", <<x, Id("p")>>)} ELSE {})
+  \cup {Node("mem", "", <<x, Id("p")>>)}
   \cup {Node("call", "", <<x>>), Node("call", "", <<x, B>>), Node("idx", "", <<x, B>>),
         Node("call", "", <<B, x>>), Node("call", "", <<B, B, x>>), Node("idx", "", <<B, x>>),
         Node("arr", "", <<x>>), Node("arr", "", <<B, x>>), Node("obj", "", <<Id("k"), x>>),
